@@ -1,197 +1,107 @@
-import Utcp.Lemmas.Log
+import Utcp.Lemmas.GroupInv
+import Utcp.Props.C01
 /-!
 # C03 — partial bunches are reassembled all-or-nothing and never mixed
 
-Local theorems about the reassembly list of one channel (`InPartialBunch`), for *arbitrary* sequences of
-incoming fragments: the list always has the shape "initial, then non-initial non-final fragments of the same
-reliability with matching sequence", a group is handed over only when its final fragment has been merged, it is
-then the *whole* list, and the list is emptied; a refused fragment never extends a group; an over-long group
-(more fragments than the callback array holds, extent read from the source) is dropped, not delivered.
+* **one fragment, any state** (`Lemmas/Partial.lean`, restated here): the reassembly list of a channel always has the shape
+  "initial, then non-initial non-final fragments of the same reliability with matching sequence"; a group is handed over only
+  when its final fragment has been merged, it is then the *whole* list, and the list is emptied; a refused fragment never
+  extends a group; an over-long group (more fragments than the callback array holds, extent read from the source) is dropped.
+* **every history** (`Lemmas/GroupInv.lean`): whatever bit strings `ReceivedPacket` is fed, interleaved with any sends and
+  flushes, *every* receive callback the endpoint ever makes carries either one non-partial bunch or one complete group: first
+  fragment initial, last fragment final, nothing in between initial or final, all fragments partial, of one reliability, with
+  matching sequence numbers, at most 256 of them (`every_callback_is_a_group`, `group_facts`).  Together with C01's
+  `delivered_once` (no reliable sequence number is delivered twice) a reliable group is delivered at most once.
+Not proved in Lean: that a *reliable* group is eventually delivered and that an unreliable group whose packets were all accepted
+is delivered (liveness across the two endpoints: monitors `C03/lost`, `C03/ulost` on the real code).
 -/
 namespace Utcp.Props.C03
-open Utcp Utcp.Gen
+open Utcp Utcp.Gen Utcp.Partial
 
-theorem group_limit : maxGroup = 256 ∧ Gen.EXTENT_HandleBunch = Gen.MaxSequenceHistoryLength := by decide
+theorem group_limit : maxGroup = 256 ∧ Gen.EXTENT_HandleBunch = Gen.MaxSequenceHistoryLength := Partial.group_limit
 
-/-- consecutive fragments match: same reliability; reliable ⇒ next channel sequence; unreliable ⇒ same or next packet -/
-def Follows (a b : Bunch) : Prop :=
-  a.bReliable = b.bReliable ∧ (if b.bReliable then b.chSeq = a.chSeq + 1 else (b.chSeq = a.chSeq + 1 ∨ b.chSeq = a.chSeq))
-
-/-- shape of a reassembly list: non-empty lists start with an initial fragment, nothing after the first is initial,
-nothing before the last is final, every element is partial, neighbours follow each other -/
-def Shape : List Bunch → Prop
-  | [] => True
-  | b :: rest => b.bPartial = true ∧ b.bPartialInitial = true ∧ Tail b rest
-where
-  Tail : Bunch → List Bunch → Prop
-    | _, [] => True
-    | prev, b :: rest => prev.bPartialFinal = false ∧ b.bPartial = true ∧ b.bPartialInitial = false ∧ Follows prev b ∧ Tail b rest
-
-theorem tail_append (l : List Bunch) : ∀ (p : Bunch) (b : Bunch), Shape.Tail p l →
-    ((p :: l).getLast?.map (·.bPartialFinal)) = some false → b.bPartial = true → b.bPartialInitial = false →
-    (∀ last, (p :: l).getLast? = some last → Follows last b) → Shape.Tail p (l ++ [b]) := by
-  induction l with
-  | nil =>
-    intro p b _ hlast hb hbi hf
-    simp only [List.nil_append, Shape.Tail]
-    exact ⟨by simpa using hlast, hb, hbi, hf p (by simp), trivial⟩
-  | cons x xs ih =>
-    intro p b h hlast hb hbi hf
-    simp only [Shape.Tail, List.cons_append] at h ⊢
-    obtain ⟨h1, h2, h3, h4, h5⟩ := h
-    refine ⟨h1, h2, h3, h4, ih x b h5 ?_ hb hbi ?_⟩
-    · simpa [List.getLast?_cons_cons] using hlast
-    · intro last hl; exact hf last (by simpa [List.getLast?_cons_cons] using hl)
-
-theorem follows_of_canMerge (last b : Bunch) (h : canMerge last b = true) : last.bPartialFinal = false ∧ Follows last b := by
-  unfold canMerge seqMatches at h
-  simp only [Bool.and_eq_true, Bool.not_eq_true', beq_iff_eq] at h
-  obtain ⟨⟨hnf, hseq⟩, hrel⟩ := h
-  refine ⟨hnf, hrel, ?_⟩
-  by_cases hr : b.bReliable = true
-  · simp only [hr, if_true] at hseq ⊢; simpa using hseq
-  · simp only [hr, Bool.false_eq_true, if_false] at hseq ⊢
-    simpa using hseq
+/-! ## one fragment, any state -/
 
 /-- **the reassembly list keeps its shape** whatever fragment arrives (`merge_partial_data`) -/
 theorem merge_shape (c : Conn) (x : Channel) (b : Bunch) (hb : b.bPartial = true) (hs : Shape x.inPartial) :
-    Shape (mergePartial c x b).2.1.inPartial := by
-  unfold mergePartial
-  by_cases hi : b.bPartialInitial = true
-  · simp only [hi, if_true]
-    unfold mergeInitial
-    cases hl : x.inPartial.getLast? with
-    | none => simp [Shape, Shape.Tail, hb, hi]
-    | some last =>
-      simp only
-      by_cases hc : (!last.bPartialFinal && last.bReliable) = true
-      · simp only [hc, if_true]; exact hs
-      · simp only [hc, Bool.false_eq_true, if_false]; simp [Shape, Shape.Tail, hb, hi]
-  · simp only [hi, Bool.false_eq_true, if_false]
-    unfold mergeNext
-    cases hl : x.inPartial.getLast? with
-    | none => simpa using hs
-    | some last =>
-      simp only
-      by_cases hc : canMerge last b = true
-      · simp only [hc, if_true]
-        obtain ⟨hnf, hfol⟩ := follows_of_canMerge last b hc
-        cases hx : x.inPartial with
-        | nil => simp [hx] at hl
-        | cons p rest =>
-          rw [hx] at hs hl
-          simp only [Shape] at hs ⊢
-          simp only [List.cons_append]
-          refine ⟨hs.1, hs.2.1, tail_append rest p b hs.2.2 (by rw [hl]; simp [hnf]) hb (by simpa using hi) ?_⟩
-          intro l' hl'; rw [hl] at hl'; cases hl'; exact hfol
-      · simp only [hc, Bool.false_eq_true, if_false]
-        by_cases hr : last.bReliable = true
-        · simp only [hr, if_true]; exact hs
-        · simp only [hr, Bool.false_eq_true, if_false]; simp [Shape]
+    Shape (mergePartial c x b).2.1.inPartial := Partial.merge_shape c x b hb hs
 
 /-- a group is reported available only when a non-initial *final* fragment has just been merged, and then the list
 is exactly the old (non-empty) list followed by it -/
 theorem available_iff (c : Conn) (x : Channel) (b : Bunch) (h : (mergePartial c x b).2.2.1 = .available) :
-      b.bPartialInitial = false ∧ b.bPartialFinal = true ∧ (mergePartial c x b).2.1.inPartial = x.inPartial ++ [b] ∧ x.inPartial ≠ [] := by
-  unfold mergePartial at h ⊢
-  by_cases hi : b.bPartialInitial = true
-  · simp only [hi, if_true] at h
-    unfold mergeInitial at h
-    cases hl : x.inPartial.getLast? with
-    | none => simp [hl] at h
-    | some last =>
-      simp only [hl] at h
-      by_cases hc : (!last.bPartialFinal && last.bReliable) = true
-      · simp only [hc, if_true] at h; split at h <;> simp at h
-      · simp [hc] at h
-  · simp only [hi, Bool.false_eq_true, if_false] at h ⊢
-    unfold mergeNext at h ⊢
-    cases hl : x.inPartial.getLast? with
-    | none => simp [hl] at h
-    | some last =>
-      simp only [hl] at h ⊢
-      by_cases hc : canMerge last b = true
-      · simp only [hc, if_true] at h ⊢
-        by_cases hf : b.bPartialFinal = true
-        · refine ⟨by simpa using hi, hf, trivial, ?_⟩
-          intro he; simp [he] at hl
-        · simp [hf] at h
-      · simp only [hc, Bool.false_eq_true, if_false] at h
-        by_cases hr : last.bReliable = true
-        · simp only [hr, if_true] at h; split at h <;> simp at h
-        · simp [hr] at h
+    b.bPartialInitial = false ∧ b.bPartialFinal = true ∧ (mergePartial c x b).2.1.inPartial = x.inPartial ++ [b] ∧ x.inPartial ≠ [] :=
+  Partial.available_iff c x b h
 
 /-- a refused or fatal merge never extends the list: it is left alone or cleared -/
 theorem refused_no_growth (c : Conn) (x : Channel) (b : Bunch) (h : (mergePartial c x b).2.2.1 = .failed ∨ (mergePartial c x b).2.2.1 = .fatal) :
-    (mergePartial c x b).2.1.inPartial = x.inPartial ∨ (mergePartial c x b).2.1.inPartial = [] := by
-  unfold mergePartial at h ⊢
-  by_cases hi : b.bPartialInitial = true
-  · simp only [hi, if_true] at h ⊢
-    unfold mergeInitial at h ⊢
-    cases hl : x.inPartial.getLast? with
-    | none => simp [hl] at h
-    | some last =>
-      simp only [hl] at h ⊢
-      by_cases hc : (!last.bPartialFinal && last.bReliable) = true
-      · simp only [hc, if_true]; exact Or.inl trivial
-      · simp [hc] at h
-  · simp only [hi, Bool.false_eq_true, if_false] at h ⊢
-    unfold mergeNext at h ⊢
-    cases hl : x.inPartial.getLast? with
-    | none => exact Or.inl rfl
-    | some last =>
-      simp only [hl] at h ⊢
-      by_cases hc : canMerge last b = true
-      · simp only [hc, if_true] at h; split at h <;> simp at h
-      · simp only [hc, Bool.false_eq_true, if_false]
-        by_cases hr : last.bReliable = true
-        · simp only [hr, if_true]; exact Or.inl trivial
-        · simp only [hr, Bool.false_eq_true, if_false]; exact Or.inr trivial
+    (mergePartial c x b).2.1.inPartial = x.inPartial ∨ (mergePartial c x b).2.1.inPartial = [] := Partial.refused_no_growth c x b h
 
 /-- fragments of different reliability are never combined, reliable fragments only with the next channel sequence,
 unreliable ones only from the same or the next packet -/
 theorem merged_follows (c : Conn) (x : Channel) (b : Bunch) (last : Bunch) (hl : x.inPartial.getLast? = some last)
-    (hi : b.bPartialInitial = false) (hm : (mergePartial c x b).2.1.inPartial = x.inPartial ++ [b]) : Follows last b := by
-  unfold mergePartial at hm
-  simp only [hi, Bool.false_eq_true, if_false] at hm
-  unfold mergeNext at hm
-  simp only [hl] at hm
-  by_cases hc : canMerge last b = true
-  · exact (follows_of_canMerge last b hc).2
-  · simp only [hc, Bool.false_eq_true, if_false] at hm
-    by_cases hr : last.bReliable = true
-    · simp only [hr, if_true] at hm
-      have := congrArg List.length hm; simp at this
-    · simp only [hr, Bool.false_eq_true, if_false] at hm
-      have := congrArg List.length hm; simp at this
+    (hi : b.bPartialInitial = false) (hm : (mergePartial c x b).2.1.inPartial = x.inPartial ++ [b]) : Follows last b :=
+  Partial.merged_follows c x b last hl hi hm
 
-/-- a complete list (shape + final last element) is a well-formed group: first initial, last final, all partial, no inner
-fragment initial or final, one reliability, matching sequences -/
+/-- a complete list (shape + final last element) is a well-formed group -/
 theorem group_of_shape (g : List Bunch) (hs : Shape g) (hne : g ≠ []) (hfin : (g.getLast?.map (·.bPartialFinal)) = some true) :
-    (g.head?.map (·.bPartialInitial)) = some true ∧ (∀ b ∈ g, b.bPartial = true) := by
-  cases g with
-  | nil => exact absurd rfl hne
-  | cons p rest =>
-    simp only [Shape] at hs
-    refine ⟨by simp [hs.2.1], ?_⟩
-    have : ∀ (q : Bunch) (l : List Bunch), Shape.Tail q l → ∀ b ∈ l, b.bPartial = true := by
-      intro q l
-      induction l generalizing q with
-      | nil => intro _ b hb; simp at hb
-      | cons y ys ih =>
-        intro ht b hb
-        simp only [Shape.Tail] at ht
-        rcases List.mem_cons.mp hb with rfl | hb
-        · exact ht.2.1
-        · exact ih y ht.2.2.2.2 b hb
-    intro b hb
-    rcases List.mem_cons.mp hb with rfl | hb
-    · exact hs.1
-    · exact this p rest hs.2.2 b hb
+    (g.head?.map (·.bPartialInitial)) = some true ∧ (∀ b ∈ g, b.bPartial = true) := Partial.group_of_shape g hs hne hfin
+
+/-! ## every history -/
+
+/-- one step of a history (the operations of `C01.Op`: send any bunch, flush, `ReceivedPacket` on any bits) keeps the shape
+invariant and only logs callbacks that carry a single bunch or a complete group -/
+theorem step_groups (e : Env) (c : Conn) (op : C01.Op) (h : GInv c) : GInv (C01.apply e c op) ∧ Adds GroupP c (C01.apply e c op) := by
+  cases op with
+  | send b => exact sendBunch_ginv e c b h
+  | flush => exact flush_ginv e c h
+  | recv bits => exact receivedPacket_ginv e c bits h
+
+theorem run_groups (ops : List (Env × C01.Op)) : ∀ c : Conn, GInv c → GInv (C01.run c ops) ∧ Adds GroupP c (C01.run c ops) := by
+  induction ops with
+  | nil => intro c h; exact ⟨h, Adds.refl _ _⟩
+  | cons p rest ih =>
+    intro c h
+    obtain ⟨e, op⟩ := p
+    obtain ⟨s1, s2⟩ := step_groups e c op h
+    obtain ⟨r1, r2⟩ := ih _ s1
+    exact ⟨r1, s2.trans r2⟩
+
+/-- **all-or-nothing, never mixed — for every callback of every history**: a receive callback logged during the history carries
+one non-partial bunch, or one complete group of at most 256 fragments with the group shape -/
+theorem every_callback_is_a_group (ops : List (Env × C01.Op)) (c : Conn) (h : GInv c) (g : List Bunch)
+    (hg : Event.recv g ∈ (C01.run c ops).log) : Event.recv g ∈ c.log ∨ GroupOK g := by
+  obtain ⟨_, new, hlog, hnew⟩ := run_groups ops c h
+  rw [hlog] at hg
+  rcases List.mem_append.mp hg with hg | hg
+  · right; exact hnew _ hg g rfl
+  · left; exact hg
+
+/-- what `GroupOK` says in the terms of the property: positive count; more than one element ⇒ first initial, last final, every
+element partial, and neighbours follow each other (same reliability, matching sequence) -/
+theorem group_facts (g : List Bunch) (h : GroupOK g) :
+    1 ≤ g.length ∧ g.length ≤ 256 ∧
+    ((∃ b, g = [b] ∧ b.bPartial = false) ∨
+     ((g.head?.map (·.bPartialInitial)) = some true ∧ (g.getLast?.map (·.bPartialFinal)) = some true ∧ (∀ b ∈ g, b.bPartial = true) ∧ Shape g)) := by
+  rcases h with ⟨b, rfl, hb⟩ | ⟨hs, hne, hfin, hlen⟩
+  · exact ⟨by simp, by simp, Or.inl ⟨b, rfl, hb⟩⟩
+  · obtain ⟨h1, h2⟩ := Partial.group_of_shape g hs hne hfin
+    refine ⟨?_, hlen, Or.inr ⟨h1, hfin, h2, hs⟩⟩
+    cases g with
+    | nil => exact absurd rfl hne
+    | cons a t => simp
+
+/-- the invariant holds on a freshly initialised connection -/
+theorem fresh_groups (i o : Int) : GInv (({} : Conn).seqInit i o) := by
+  intro ch x hx
+  have hn : (({} : Conn).seqInit i o).getChan ch = none := rfl
+  rw [hn] at hx; cases hx
 
 /-! non-vacuity -/
 example : Shape [{ bPartial := true, bPartialInitial := true, bReliable := true, chSeq := 7 },
                  { bPartial := true, bReliable := true, chSeq := 8 }] := by
   simp [Shape, Shape.Tail, Follows]
+example : GroupOK [{ bPartial := true, bPartialInitial := true, bReliable := true, chSeq := 7 },
+                   { bPartial := true, bPartialFinal := true, bReliable := true, chSeq := 8 }] := by
+  right; simp [Shape, Shape.Tail, Follows]
 
 end Utcp.Props.C03
